@@ -16,7 +16,7 @@ theorem takeOptBool_octet (v : Bytes) : takeOptBool (tlv tagOctetString v) = .ab
 
 theorem idExtension_bc (e : IdExts) (ca : Bool) (he : e.basicCa = none) :
     idExtension e (bcBody ca) = some { e with basicCa := some ca } := by
-  unfold idExtension bcBody extBody
+  unfold idExtension idExtValue bcBody extBody
   rw [List.append_assoc, takeOid_tlv oidBasicConstraints _ (by decide)]
   simp only [if_true, takeOptBool_true, takePrim_tlv_nil tagOctetString _ (by decide) (by decide)]
   simp only [he, takeCons_tlv_nil tagSeq _ (by decide) (by decide), ne_eq, not_true_eq_false, if_false, if_true,
@@ -30,7 +30,7 @@ theorem idExtension_bc (e : IdExts) (ca : Bool) (he : e.basicCa = none) :
 
 theorem idExtension_ski (e : IdExts) (k : Bytes) (hk : k.length = 20) (he : e.ski = none) :
     idExtension e (skiBody k) = some { e with ski := some k } := by
-  unfold idExtension skiBody extBody
+  unfold idExtension idExtValue skiBody extBody
   rw [List.append_assoc, takeOid_tlv oidSubjectKeyId _ (by decide)]
   have h1 : ¬ oidSubjectKeyId = oidBasicConstraints := by decide
   simp only [Bool.false_eq_true, if_false, List.nil_append, takeOptBool_octet,
@@ -39,7 +39,7 @@ theorem idExtension_ski (e : IdExts) (k : Bytes) (hk : k.length = 20) (he : e.sk
 
 theorem idExtension_aki (e : IdExts) (k : Bytes) (hk : k.length = 20) :
     idExtension e (akiBody k) = some { e with aki := some k } := by
-  unfold idExtension akiBody extBody
+  unfold idExtension idExtValue akiBody extBody
   rw [List.append_assoc, takeOid_tlv oidAuthorityKeyId _ (by decide)]
   have h1 : ¬ oidAuthorityKeyId = oidBasicConstraints := by decide
   have h2 : ¬ oidAuthorityKeyId = oidSubjectKeyId := by decide
